@@ -28,7 +28,7 @@ from ..evidence import Run, canon_hash
 
 PID = "C07"
 SHARDS = {"quick": 8, "thorough": 16}
-SHARD_TIMEOUT = {"quick": 600, "thorough": 1700}
+SHARD_TIMEOUT = {"quick": 900, "thorough": 3300}
 
 K_D16 = "config-context-module-global-shared-across-threads"
 K_D17 = "pandas-shared-column-coerce-dtype-override-unsynchronised"
@@ -40,7 +40,7 @@ K_MODEL = "model-to-schema-first-use-class-dict-mutated-while-iterated"
 #         double-preemption grid side, random schedules per (variant, n, p))
 SIZES = {
     "quick": dict(variants=2, single=70, double=6, random=18),
-    "thorough": dict(variants=4, single=None, double=22, random=210),
+    "thorough": dict(variants=3, single=None, double=16, random=120),
 }
 PROBS = (0.005, 0.02, 0.10)
 
